@@ -1,10 +1,23 @@
-//! Bounded in-memory model of the subset of heed 0.22 used by arroy (probe version).
+//! Bounded in-memory model of the subset of heed 0.22 used by arroy.
+//! One LMDB database = an unordered table of <= CAP slots; order is the byte order of the 8-byte keys.
+//! Trusted contracts: get/put/delete/delete_range/clear/len; cursors remember the key they stand on
+//! (next = least key greater than it that carries the prefix); put_with_flags(APPEND) fails with
+//! KeyExist iff key <= greatest key present; put fails with MapFull when slots/value capacity are
+//! exhausted or when the fault counter says so.
+#![allow(clippy::all)]
 use std::borrow::Cow;
 use std::marker::PhantomData;
 use std::ops::{Bound, Deref, RangeBounds};
 use std::{error, fmt, io};
 
-pub type BoxedError = Box<dyn error::Error + Send + Sync + 'static>;
+/// In real heed this is `Box<dyn Error + Send + Sync>`.  The model keeps no payload: error
+/// *values* are never observed by arroy (only the variant is), and moving `Box<dyn Error>`
+/// values out of unrolled loops makes CBMC's formula explode (measured: > 7 GB on `Writer::clear`).
+#[derive(Debug)]
+pub struct BoxedError;
+impl<E: Into<Box<dyn error::Error + Send + Sync + 'static>>> From<E> for BoxedError {
+    fn from(e: E) -> Self { core::mem::forget(e); BoxedError }
+}
 pub type Result<T> = std::result::Result<T, Error>;
 
 pub trait BytesEncode<'a> {
@@ -39,7 +52,7 @@ impl PutFlags {
 
 pub const CAP: usize = 6;
 pub const KLEN: usize = 8;
-pub const VMAX: usize = 32;
+pub const VMAX: usize = 48;
 
 #[inline] fn k64(k: &[u8]) -> u64 { assert!(k.len() == KLEN, "model: keys are 8 bytes");
     ((k[0] as u64) << 56) | ((k[1] as u64) << 48) | ((k[2] as u64) << 40) | ((k[3] as u64) << 32) | ((k[4] as u64) << 24) | ((k[5] as u64) << 16) | ((k[6] as u64) << 8) | (k[7] as u64) }
@@ -57,9 +70,13 @@ pub struct Store {
     pub kbytes: [[u8; KLEN]; CAP],
     pub vlen: [usize; CAP],
     pub vals: [[u8; VMAX]; CAP],
+    /// number of writes (put/put_current) attempted so far
+    pub writes: u32,
+    /// fault injection: the `fail_at`-th write (counting from 1) fails with MapFull; 0 = never
+    pub fail_at: u32,
 }
 impl Store {
-    pub const fn new() -> Store { Store { used: [false; CAP], keys: [0; CAP], kbytes: [[0; KLEN]; CAP], vlen: [0; CAP], vals: [[0; VMAX]; CAP] } }
+    pub const fn new() -> Store { Store { used: [false; CAP], keys: [0; CAP], kbytes: [[0; KLEN]; CAP], vlen: [0; CAP], vals: [[0; VMAX]; CAP], writes: 0, fail_at: 0 } }
     pub fn count(&self) -> usize { let mut n = 0; let mut i = 0; while i < CAP { if self.used[i] { n += 1; } i += 1; } n }
     fn find(&self, k: u64) -> Option<usize> { let mut i = 0; while i < CAP { if self.used[i] && self.keys[i] == k { return Some(i); } i += 1; } None }
     /// slot of the smallest key >= k (strict: > k)
@@ -76,6 +93,8 @@ impl Store {
     fn max_key(&self) -> Option<u64> { let mut m: Option<u64> = None; let mut i = 0; while i < CAP { if self.used[i] { m = match m { Some(x) if x >= self.keys[i] => Some(x), _ => Some(self.keys[i]) }; } i += 1; } m }
     pub fn put_raw(&mut self, kb: &[u8], v: &[u8]) -> std::result::Result<(), MdbError> {
         let k = k64(kb);
+        self.writes += 1;
+        if self.fail_at != 0 && self.writes == self.fail_at { return Err(MdbError::MapFull); }
         if v.len() > VMAX { return Err(MdbError::MapFull); }
         let slot = match self.find(k) { Some(i) => i, None => {
             let mut f = CAP; let mut i = 0; while i < CAP { if !self.used[i] { f = i; break; } i += 1; }
@@ -100,9 +119,31 @@ impl Store {
         self.vals[s][..v.len()].copy_from_slice(v);
         self.vlen[s] = v.len();
     }
+    /// Harness-side constructor with a symbolic value: all VMAX bytes are given, `vlen` of them count.
+    pub fn set_slot_sym(&mut self, s: usize, kb: [u8; KLEN], vals: [u8; VMAX], vlen: usize) {
+        self.used[s] = true; self.keys[s] = k64(&kb); self.kbytes[s] = kb;
+        self.vals[s] = vals;
+        self.vlen[s] = vlen;
+    }
     pub fn del_at(&mut self, i: usize) { let mut s = 0; while s < CAP { if s == i { self.used[s] = false; } s += 1; } }
-    pub fn val(&self, i: usize) -> &[u8] { let mut s = 0; while s < CAP { if s == i { return &self.vals[s][..self.vlen[s]]; } s += 1; } panic!("model: bad slot") }
-    pub fn key(&self, i: usize) -> &[u8] { let mut s = 0; while s < CAP { if s == i { return &self.kbytes[s][..]; } s += 1; } panic!("model: bad slot") }
+    /// Value / key bytes of slot `i`, copied out into a fresh (leaked) buffer with guarded
+    /// whole-array copies: the returned slice has a *concrete* base address, so decoding it does
+    /// not make CBMC case-split on a symbolic pointer into the slot table.  The copy stays valid
+    /// for ever (like LMDB pages within a transaction that does not write).
+    pub fn val(&self, i: usize) -> &'static [u8] {
+        let mut b = Box::new([0u8; VMAX]); let mut len = 0usize; let mut hit = false;
+        let mut s = 0; while s < CAP { if s == i { *b = self.vals[s]; len = self.vlen[s]; hit = true; } s += 1; }
+        assert!(hit, "model: bad slot");
+        let r: &'static [u8; VMAX] = Box::leak(b);
+        &r[..len]
+    }
+    pub fn key(&self, i: usize) -> &'static [u8] {
+        let mut b = Box::new([0u8; KLEN]); let mut hit = false;
+        let mut s = 0; while s < CAP { if s == i { *b = self.kbytes[s]; hit = true; } s += 1; }
+        assert!(hit, "model: bad slot");
+        let r: &'static [u8; KLEN] = Box::leak(b);
+        &r[..]
+    }
 }
 
 pub struct RoTxn<'e> { store: *mut Store, _m: PhantomData<&'e ()> }
@@ -240,6 +281,8 @@ impl<'txn, KC, DC> RwPrefix<'txn, KC, DC> {
         let kb = KC::bytes_encode(key).map_err(Error::Encoding)?;
         let vb = NDC::bytes_encode(data).map_err(Error::Encoding)?;
         let s = &mut *self.c.store;
+        s.writes += 1;
+        if s.fail_at != 0 && s.writes == s.fail_at { return Err(Error::Mdb(MdbError::MapFull)); }
         match self.c.on() {
             Some(i) if s.keys[i] == k64(&kb) => { if vb.len() > VMAX { return Err(Error::Mdb(MdbError::MapFull)); }
                 let mut t = 0; while t < CAP { if t == i { let mut j = 0; while j < vb.len() { s.vals[t][j] = vb[j]; j += 1; } s.vlen[t] = vb.len(); } t += 1; } Ok(()) }
@@ -261,7 +304,7 @@ pub mod types {
     impl BytesDecode<'_> for DecodeIgnore { type DItem = (); fn bytes_decode(_b: &[u8]) -> std::result::Result<(), BoxedError> { Ok(()) } }
     pub enum Unit {}
     impl<'a> BytesEncode<'a> for Unit { type EItem = (); fn bytes_encode(_i: &'a ()) -> std::result::Result<Cow<'a, [u8]>, BoxedError> { Ok(Cow::Borrowed(&[])) } }
-    impl BytesDecode<'_> for Unit { type DItem = (); fn bytes_decode(b: &[u8]) -> std::result::Result<(), BoxedError> { if b.is_empty() { Ok(()) } else { Err("non-empty unit".into()) } } }
+    impl BytesDecode<'_> for Unit { type DItem = (); fn bytes_decode(b: &[u8]) -> std::result::Result<(), BoxedError> { if b.is_empty() { Ok(()) } else { Err(BoxedError) } } }
     pub struct LazyDecode<C>(PhantomData<C>);
     impl<'a, C: 'static> BytesDecode<'a> for LazyDecode<C> { type DItem = Lazy<'a, C>; fn bytes_decode(bytes: &'a [u8]) -> std::result::Result<Lazy<'a, C>, BoxedError> { Ok(Lazy { data: bytes, _m: PhantomData }) } }
     #[derive(Copy, Clone)]
